@@ -541,6 +541,46 @@ def none_cases(ctx):
         ctx.fail('None maps to None', 'thaw-none-raised', case, repr(exc))
 
 
+ALIVE = []          # frozen messages of earlier cases stay alive for the whole shard, as they do in an application
+
+
+def hash_twin_cases(ctx):
+    """Different messages with the same hash: CPython hashes -1 and -2 alike, 0 and 2**61-1, 0.5 and 2**60.  Two messages
+    that differ only in such a pair of values collide in any table keyed by hash - they are still different messages:
+    freezing the second while the frozen first is alive gives the second, they compare unequal, both serve as
+    dictionary keys, and thawing gives each one back."""
+    n = 0
+    builders = [
+        ('pitchwheel.pitch', lambda v: Message('pitchwheel', pitch=v), (-1, -2)),
+        ('message.time', lambda v: Message('note_on', note=5, time=v), (-1, -2)),
+        ('message.time', lambda v: Message('sysex', data=(1, 2), time=v), (0, 2 ** 61 - 1)),
+        ('message.time', lambda v: Message('clock', time=v), (0.5, 2 ** 60)),
+        ('meta.time', lambda v: MetaMessage('set_tempo', tempo=5, time=v), (-1, -2)),
+        ('meta.time', lambda v: MetaMessage('text', text='x', time=v), (0, 2 ** 61 - 1)),
+        ('unknown_meta.time', lambda v: UnknownMetaMessage(0x60, (1,), time=v), (-1, -2)),
+        ('unknown_meta.time', lambda v: UnknownMetaMessage(0x60, (1,), time=v), (2 ** 60, 0.5)),
+    ]
+    for what, mk, (a, b) in builders:
+        for first, second in ((a, b), (b, a)):
+            case = {'kind': 'hash-twins', 'what': what, 'first': repr(first), 'second': repr(second)}
+            try:
+                m1, m2 = mk(first), mk(second)
+                f1 = freeze_message(m1)
+                ALIVE.append(f1)
+                f2 = freeze_message(m2)
+                ALIVE.append(f2)
+                ctx.check('thaw(freeze(m)) == m', f2 == m2 and f1 == m1 and thaw_message(f2) == m2 and thaw_message(f1) == m1
+                          and type(vars(f2)['time']) is type(second), 'hash-twins:freeze-gave-another-message', case,
+                          lambda: {'m2': repr(m2), 'freeze(m2)': repr(f2)})
+                d = {f1: 'first', f2: 'second'}
+                ctx.check('equal frozen => equal hash and dict key', f1 != f2 and len(d) == 2 and d[freeze_message(mk(second))] == 'second'
+                          and d[freeze_message(mk(first))] == 'first', 'hash-twins:keys-merged', case, lambda: {'keys': len(d)})
+            except Exception as exc:
+                ctx.fail('thaw(freeze(m)) == m', f'hash-twins:{type(exc).__name__}', case, f'{type(exc).__name__}: {exc}')
+            n += 1
+    return n
+
+
 def specs_for_shard(ctx):
     rng = ctx.rng
     out = []
@@ -582,6 +622,8 @@ def run(ctx):
         n += unknown_meta_variants(ctx)
         n += unchecked_value_cases(ctx)
         n += user_subclass_cases(ctx)
+    if ctx.shard == 1 % ctx.nshards:
+        n += hash_twin_cases(ctx)
     ctx.count('cases', n)
 
 
@@ -596,6 +638,8 @@ def replay(ctx, case):
         unknown_meta_variants(ctx)
     elif case['kind'] == 'unchecked-values':
         unchecked_value_cases(ctx)
+    elif case['kind'] == 'hash-twins':
+        hash_twin_cases(ctx)
     elif case['kind'] == 'user-subclass':
         user_subclass_cases(ctx)
     else:
